@@ -49,6 +49,7 @@ import warnings
 import numpy as np
 
 from ..gen import arrays as A
+from ..mon import siblings as S
 from ..mon.compare import blocks_mismatch, compare_arrays, lazy_meta_mismatch
 
 PROP = "C26"
@@ -464,7 +465,10 @@ def _run_overlap(case, ctx):
 
     # ---- dask --------------------------------------------------------------------------------------------
     r = None
-    try:
+
+    def dask_build(depth, boundary, darg, barg):
+        """(overlapped array or None, result) for the case's depth/boundary or (sibling facet) for changed ones"""
+        g = None
         if kind == "ident":
             g = ov.overlap(dx, darg, barg, allow_rechunk=allow)
             if case["api"] == "trim_overlap":
@@ -495,6 +499,10 @@ def _run_overlap(case, ctx):
             if case.get("passdtype"):
                 kw["dtype"] = expected.dtype
             r = da.map_overlap(fn, dx, dy, **kw)
+        return g, r
+
+    try:
+        g, r = dask_build(depth, boundary, darg, barg)
         rv = r.compute(scheduler="sync")
     except NotImplementedError as ex:
         ctx.unsupported(str(ex))
@@ -535,6 +543,69 @@ def _run_overlap(case, ctx):
                       chunks=case["chunks"], lazy_chunks=repr(r.chunks))
     ctx.sample = {"kind": kind, "chunks": case["chunks"], "depth": repr(darg), "boundary": repr(barg),
                   "out_chunks": repr(r.chunks)[:80]}
+    # ---- sibling facet: the same call with another depth / boundary must not share keys with this one ----------
+    # ident: trim(overlap(x)) is x whatever the depth, so the observed pair is the two OVERLAPPED arrays
+    sib = _sibling_overlap(case, shape)
+    if sib is not None:
+        param, depth2, boundary2 = sib
+        srng = random.Random(0)
+        ints = all(isinstance(d, int) for d in depth2)
+        dform = case["dform"] if (case["dform"] != "int" or (ints and len(set(depth2)) == 1)) else "tuple"
+        bform = case["bform"] if (case["bform"] != "scalar" or all(b == boundary2[0] for b in boundary2)) else "tuple"
+        darg2, barg2 = _depth_arg(depth2, dform, srng), _boundary_arg(boundary2, bform, srng)
+        if dform == "dict":
+            darg2 = {ax: (d if isinstance(d, int) else tuple(d)) for ax, d in enumerate(depth2)}
+        if bform == "dict":
+            barg2 = {ax: _bval(b) for ax, b in enumerate(boundary2)}
+        pick = 0 if kind == "ident" else 1
+        S.check(ctx, "overlap" if kind == "ident" else "map_overlap", param, (g, r)[pick],
+                (lambda: dask_build(depth2, boundary2, darg2, barg2)[pick]), va=None if kind == "ident" else rv,
+                describe={"depth": repr(darg2), "boundary": repr(barg2)})
+
+
+def _sibling_overlap(case, shape):
+    """(parameter, depth, boundary) with ONE axis' depth or boundary changed.  map_overlap: the stencil never looks
+    further than the case's depth and the halo is trimmed, so a deeper halo gives the same values; the boundary kind
+    (or constant) of an axis whose stencil reaches the edge changes them -> preferred there."""
+    depth, boundary = [d if isinstance(d, int) else list(d) for d in case["depth"]], list(case["boundary"])
+    srng = S.rng_for(case)
+    kind = case["kind"]
+    isint = case["dtype"].startswith("int")
+    active = [ax for ax, d in enumerate(depth) if _dmax(d) > 0]
+    if not active:
+        return None
+    want_boundary = srng.random() < (0.5 if kind == "ident" else 0.8)
+    if want_boundary:
+        sym = [ax for ax in active if isinstance(depth[ax], int)]      # real boundaries need a symmetric depth
+        if kind != "ident":
+            reach = [ax for ax in sym if max(case["fn"]["radii"][ax]) > 0]
+            sym = reach or sym
+        if sym:
+            ax = srng.choice(sym)
+            cur = boundary[ax]
+            curk = cur[0] if isinstance(cur, list) else cur
+            if curk == "const" and srng.random() < 0.4:
+                b2 = ["const", srng.choice([v for v in ((0, 7, -3) if isint else (0, 1.5, -2)) if v != cur[1]])]
+            else:
+                k2 = srng.choice([k for k in BKINDS if k != curk and (k != "none" or (kind == "ident" or case.get("trim", True)))])
+                b2 = ["const", 7 if isint else 1.5] if k2 == "const" else k2
+            boundary[ax] = b2
+            return "boundary", depth, boundary
+    ax = srng.choice(active)
+    d = depth[ax]
+    if isinstance(d, int):
+        d2 = d + 1 if d + 1 <= shape[ax] else d - 1
+        if d2 < 0:
+            return None
+        depth[ax] = d2
+    else:
+        i = srng.randrange(2)
+        d = list(d)
+        d[i] = d[i] + 1 if d[i] + 1 <= shape[ax] else d[i] - 1
+        if d[i] < 0:
+            return None
+        depth[ax] = d
+    return "depth", depth, boundary
 
 
 def _run_swv(case, ctx):
@@ -596,3 +667,14 @@ def _run_swv(case, ctx):
                           lazy_chunks=repr(r.chunks))
     ctx.sample = {"kind": "swv", "chunks": case["chunks"], "window": repr(window), "axis": repr(axis),
                   "out_chunks": repr(r.chunks)[:80]}
+    # ---- sibling facet: the same view with another window size must not share keys with this one -----------------
+    srng = S.rng_for(case)
+    i = srng.randrange(len(wl))
+    room = shape[al[i] % len(shape)] - ext[al[i] % len(shape)]          # cells left on that axis: window may grow by room-1
+    w2 = list(wl)
+    w2[i] = wl[i] + 1 if (room > 1 and (wl[i] == 1 or srng.random() < 0.5)) else wl[i] - 1
+    if w2[i] >= 1:
+        window2 = tuple(w2) if isinstance(window, tuple) else w2[0]
+        S.check(ctx, "sliding_window_view", "window", r,
+                (lambda: da.lib.stride_tricks.sliding_window_view(dx, window2, axis=axis, automatic_rechunk=case["auto"])),
+                va=rv, describe={"window": repr(window2)})
